@@ -610,6 +610,10 @@ def _builtin(ex, name, node, st):
         return V(T.TD, [z3.simplify(tot)])
     if name == "cast":        # typing.cast(T, x)
         return ex.ev(args[1], st)
+    if name == "getattr" and len(args) >= 2 and isinstance(args[1], ast.Constant):
+        # getattr(obj, "name"[, default]) on an object whose class declares the field (set in __init__)
+        base = ex.ev(args[0], st)
+        return ex.get_attribute(base, args[1].value, st, node)
     if name == "str":
         return T.fresh(T.Str, "str")
     if name in ("all", "any") and len(args) == 1 and isinstance(args[0], ast.GeneratorExp):
@@ -712,8 +716,13 @@ def _method(ex, f: ast.Attribute, node, st):
             return dt_replace(ex, base, node, st)
     if isinstance(ty, T.Dict):
         if name == "get":
-            k = T.coerce(ex.ev(node.args[0], st), ty.k)
-            has = ex.h.dict_has(st, ty, base.t, k.t)
+            kv = ex.ev(node.args[0], st)
+            notnone = z3.BoolVal(True)
+            if isinstance(kv.ty, T.Opt) and not isinstance(ty.k, T.Opt):
+                notnone = z3.Not(kv.terms[0])
+                kv = T.opt_inner(kv)
+            k = T.coerce(kv, ty.k)
+            has = z3.And(notnone, ex.h.dict_has(st, ty, base.t, k.t))
             val = ex.h.dict_get(st, ty, base.t, k.t)
             dflt = ex.ev(node.args[1], st) if len(node.args) > 1 else T.NONE
             return T.ite(has, val, dflt)
